@@ -201,6 +201,12 @@ def run_C06(ctx):
     cases += valid
     for vn in valid:
         cases += single_violations(vn, rng)
+    # the same final graphs reached through REPLACEMENTS: an origin / destination / link first attached as another
+    # object (often of another kind: ramp <-> plain origin) and then replaced - the verdict is about the graph as it
+    # is now, whatever a construction call may have cached or short-cut on the way
+    base = [c for c in cases if any(op[0] in ("origin", "dest") for op in c.ops)]
+    picked = rng.sample(base, min(len(base), 400 if quick else 4000))
+    cases += [nets.with_replacements(c, random.Random(7000 + i)) for i, c in enumerate(picked)]
     models = None
     if ctx["model_ok"]:
         try:
@@ -285,7 +291,7 @@ def run_C06(ctx):
     out["coverage"]["rule"] = ("all graphs on 1 and 2 nodes (any edge set incl. self-loops) x per node origin {none, ideal, ramp} x "
                                "destination {none, free}" + ("" if quick else " + 20000 sampled graphs on 3 nodes") +
                                "; random arbitrary graphs to 5 nodes with shared link/origin/destination objects and shuffled "
-                               "construction order; valid families and random valid graphs; distinct = graphs with at least one "
+                               "construction order; a sample of all of these rebuilt through histories that replace origins / destinations / links; valid families and random valid graphs; distinct = graphs with at least one "
                                "link up to construction order")
     out["coverage"]["samples"] = [cases[len(cases) // 3].to_json(), cases[-1].to_json()]
     out["coverage"]["traces_validated_against_impl"] = out["coverage"]["evaluations"]
